@@ -417,6 +417,67 @@ func genSeq(r *rand.Rand, n int) []Op {
 	return ops
 }
 
+// genSeqScale: the same operations at scale - `peak` names are open at once, then closed in some order with
+// lookups of the name just closed, of live names and re-instantiations of freed names in between.  The
+// registry's bookkeeping that depends on the NUMBER of names (map growth and shrinking thresholds) is exercised
+// only by histories like these; the specification is the same atomic registry.
+func genSeqScale(r *rand.Rand, peak int) []Op {
+	var ops []Op
+	h := 1
+	nameOf := map[int]int{}
+	var open []int
+	for i := 0; i < peak; i++ {
+		name := 100 + i
+		if r.Intn(12) == 0 {
+			name = 0 // anonymous instances do not count
+		}
+		ops = append(ops, Op{Kind: "inst", H: h, Name: name, Pre: "none"})
+		nameOf[h] = name
+		open = append(open, h)
+		h++
+	}
+	switch r.Intn(3) {
+	case 0: // oldest first
+	case 1:
+		for i, j := 0, len(open)-1; i < j; i, j = i+1, j-1 {
+			open[i], open[j] = open[j], open[i]
+		}
+	default:
+		r.Shuffle(len(open), func(i, j int) { open[i], open[j] = open[j], open[i] })
+	}
+	var freed []int
+	for len(open) > 0 {
+		x := open[0]
+		open = open[1:]
+		ops = append(ops, Op{Kind: "close", H: x, Code: uint32(r.Intn(3))})
+		if n := nameOf[x]; n != 0 {
+			ops = append(ops, Op{Kind: "look", Name: n})
+			freed = append(freed, n)
+		}
+		if len(open) > 0 && r.Intn(4) == 0 {
+			if n := nameOf[open[r.Intn(len(open))]]; n != 0 {
+				ops = append(ops, Op{Kind: "look", Name: n})
+			}
+		}
+		if len(freed) > 0 && r.Intn(5) == 0 {
+			// a freed name can be taken again (and is closed again later)
+			k := r.Intn(len(freed))
+			n := freed[k]
+			freed = append(freed[:k], freed[k+1:]...)
+			ops = append(ops, Op{Kind: "inst", H: h, Name: n, Pre: "none"})
+			nameOf[h] = n
+			open = append(open, h)
+			h++
+		}
+	}
+	// every name that is free at the end can be instantiated
+	for _, n := range freed {
+		ops = append(ops, Op{Kind: "inst", H: h, Name: n, Pre: "none"})
+		h++
+	}
+	return ops
+}
+
 // runSeq runs one sequence on the real runtime, Impl(cfg) and Reg. Ops with H<0 are bound to an existing
 // module handle at run time (the concrete sequence is what is reported).
 func runSeq(engine string, ops []Op, cfg Cfg, o *hx.Oracle) {
@@ -460,6 +521,12 @@ func runSeq(engine string, ops []Op, cfg Cfg, o *hx.Oracle) {
 			rep.Violate(hx.Violation{Kind: "correspondence", Signature: "C10:seq-real-differs-from-impl-model:" + op.Kind,
 				What:  fmt.Sprintf("sequential run: real code answered %s, implementation model (cfg %s) %s at op %d", real, cfg.Bits(), implR, len(concrete)-1),
 				Input: seqCase{engine, concrete}, Expected: implR, Actual: real})
+			if regAlive && implR == regR {
+				// the model agrees with the specification here and the real code with neither: this history is a failing input
+				rep.Violate(hx.Violation{Kind: "impl-violation", Signature: fmt.Sprintf("C10:seq-differs-from-spec:%s:%s-vs-%s", op.Kind, strings.Split(real, ",")[0], strings.Split(regR, ",")[0]),
+					What:  fmt.Sprintf("sequential run on %s: the runtime answered %s where the atomic registry answers %s (op %d: %s)", engine, real, regR, len(concrete)-1, op.Token()),
+					Input: seqCase{engine, concrete}, Expected: regR, Actual: real})
+			}
 			break
 		}
 		if regAlive && real != regR {
@@ -1113,6 +1180,14 @@ func main() {
 		engine := []string{"interpreter", "compiler"}[i%2]
 		n := 5 + r.Intn(36)
 		runSeq(engine, genSeq(r, n), cfg, orc)
+	}
+	peaks := []int{130, 210, 405}
+	if hx.Thorough() {
+		peaks = append(peaks, 150, 260, 820, 1650)
+	}
+	for i, pk := range peaks {
+		runSeq([]string{"interpreter", "compiler"}[i%2], genSeqScale(r, pk+r.Intn(9)), cfg, orc)
+		rep.Count("seq-scale-peak:" + bucket(pk))
 	}
 
 	// 3. concurrent histories; checked by a pool of oracles while the next history is recorded
